@@ -265,6 +265,32 @@ def run(ctx: Ctx) -> int:
         fn=addf,
     )
 
+    # ---------------- C14.j: every class argument is visited by the merge-time discard ----------------------------
+    # ActionTypeHint.discard_init_args_on_class_path_change walks a key list by index and prunes the entries nested
+    # under a handled class argument; the list it continues on must still start with the visited prefix, or the walk
+    # skips the sibling that follows
+    dmw = ctx.func("_typehints:ActionTypeHint.discard_init_args_on_class_path_change")
+    wl = [w for w in walk_local(dmw) if isinstance(w, ast.While) and isinstance(w.test, ast.Compare) and isinstance(w.test.left, ast.Name) and isinstance(w.test.comparators[0], ast.Call) and call_leaf(w.test.comparators[0]) == "len" and isinstance(w.test.comparators[0].args[0], ast.Name)]
+    ctx.need(len(wl) == 1, "discard_init_args_on_class_path_change: while <i> < len(<keys>)")
+    iv, kv = wl[0].test.left.id, wl[0].test.comparators[0].args[0].id
+    rebinds = [s for s in walk_local(wl[0]) if isinstance(s, ast.Assign) and any(isinstance(t, ast.Name) and t.id == kv for t in s.targets)]
+    for s in rebinds:
+        v = s.value
+        pre = v.left if isinstance(v, ast.BinOp) and isinstance(v.op, ast.Add) else None
+        ok = (
+            isinstance(pre, ast.Subscript)
+            and isinstance(pre.value, ast.Name)
+            and pre.value.id == kv
+            and isinstance(pre.slice, ast.Slice)
+            and pre.slice.lower is None
+            and pre.slice.upper is not None
+            and ast.unparse(pre.slice.upper).replace(" ", "") in (f"{iv}+1", f"1+{iv}")
+        )
+        ctx.oblige("C14.j", ok, s, f"the pruned key list keeps the visited prefix `{kv}[:{iv} + 1]`" if ok else f"`{src(s, 70)}` rebuilds `{kv}` without the visited prefix while `{iv}` keeps counting: the entry after a handled class argument is never visited, so a later sibling keeps the init_args of its PREVIOUS class after a class_path change (merged configurations are rejected on re-parse)", fn=dmw)
+    incs = [s for s in walk_local(wl[0]) if isinstance(s, ast.AugAssign) and isinstance(s.target, ast.Name) and s.target.id == iv]
+    ok = len(incs) == 1 and not guard_chain(incs[0], stop=wl[0])
+    ctx.oblige("C14.j", ok, incs[0] if incs else wl[0], "the index advances by one on every iteration" if ok else "the index of the key walk does not advance unconditionally", fn=dmw, construct="index advances")
+
     # ---------------- C14.i: which classes' parameters a class inherits ------------------------------------------
     # ast_is_supported_super_call records where in the MRO an explicit `super(X, self).__init__` continues: it
     # enumerates a SLICE of the class list (classes[idx:]) and has to store the absolute position idx + offset
